@@ -1,4 +1,6 @@
 """C05 — client interval: centred on the clock reading, wide enough, growing with age."""
+import os
+
 from . import client
 from .common import finish
 
@@ -11,6 +13,17 @@ def run_prop(ctx, prop, rule, min_cells=None, require=None):
     ctx.log("release sweep: %d evaluations, outcomes %s" % (a1["evaluations"], a1["outcomes"]))
     a2, v2, s2 = client.sweep(ctx, dbg, prop, 6000000 if q else 120000000, 1)
     ctx.log("debug (overflow-checked) sweep: %d evaluations" % a2["evaluations"])
+    asan_info = None
+    if not q:
+        # thorough: the same sweep with the repository crates compiled under AddressSanitizer
+        asan = ctx.build_harness_asan("clientsim", ["clientsim"])["clientsim"]
+        os.environ.setdefault("ASAN_OPTIONS", "halt_on_error=1:detect_leaks=0")
+        a3, v3a, _s3 = client.sweep(ctx, asan, prop, 2000000, 2)
+        asan_info = {"evaluations": a3["evaluations"], "shards_lost": a3["shards_lost"]}
+        ctx.log("ASan sweep: %s" % asan_info)
+        v2 = v2 + v3a
+        if a3["shards_lost"]:
+            v2.append({"sig": "asan-run-died", "detail": "%d shards of the AddressSanitizer build did not finish (see log)" % a3["shards_lost"], "replay": ""})
     cdrv = client.build_cdriver(ctx, sanitize=True)
     blur = (a1["blur_ns"] or [1000])[0]
     n3, v3, info = client.c_parity(ctx, rel, cdrv, prop, 300000 if q else 1000000, [prop], blur)
@@ -47,6 +60,7 @@ def run_prop(ctx, prop, rule, min_cells=None, require=None):
         "outcomes_release": a1["outcomes"],
         "outcomes_debug": a2["outcomes"],
         "chain_checks": a1["chain_checks"] + a2["chain_checks"],
+        "rust_asan_sweep": asan_info,
         "causality_blur_measured_ns": blurs,
         "c_library": dict(info, vectors=n3, sanitizers="clang ASan+UBSan, -fno-sanitize-recover=all, canaries around result structs"),
     }
